@@ -488,6 +488,12 @@ class Engine:
             return values_equal(a, b)
         if isinstance(op, ast.NotEq):
             return z3.Not(values_equal(a, b))
+        if isinstance(op, (ast.Is, ast.IsNot)) and (hasattr(a, "flag") or hasattr(b, "flag")):
+            # identity test against a module-level sentinel object: decided by the ghost flag attached to the parameter
+            other = b if hasattr(a, "flag") else a
+            flag = getattr(self, "sentinel_flags", {}).get(str(other.term)) if isinstance(other, Val) else None
+            r = flag if flag is not None else z3.BoolVal(False)
+            return r if isinstance(op, ast.Is) else z3.Not(r)
         if isinstance(op, (ast.Is, ast.IsNot)):
             if isinstance(a, NoneVal) or isinstance(b, NoneVal):
                 o = b if isinstance(a, NoneVal) else a
